@@ -229,6 +229,10 @@ int ubuf_pic_common_plane_map(struct ubuf *ubuf, const char *chroma,
         hoffset = common->hmsize * common_mgr->macropixel + hoffset;
     if (voffset < 0)
         voffset = common->vsize + voffset;
+    if (unlikely(hoffset < 0 || voffset < 0 ||
+                 (size_t)hoffset > common->hmsize * common_mgr->macropixel ||
+                 (size_t)voffset > common->vsize))
+        return UBASE_ERR_INVALID;
     if (unlikely(hoffset % hgran || voffset % vgran))
         return UBASE_ERR_INVALID;
     int hmoffset = hoffset / common_mgr->macropixel;
